@@ -380,3 +380,12 @@ Proof.
   - destruct (od_find k c); cbn [fst]; auto. intros x H. rewrite map_app. apply in_or_app. auto.
   - intros x. apply fold_od_set_keeps_keys.
 Qed.
+
+(* the hypotheses of the theorems above are satisfiable *)
+Example IInv_example :
+  IInv (ix_new [(1, 10); (2, 20); (1, 11)]) /\ ix_new [(1, 10); (2, 20); (1, 11)] = [(1, 11); (2, 20)] /\
+  op_wf (IEq MK_dict [(2, 20); (1, 11)]) /\ ix_removing (ISetDefault 3 0) = false.
+Proof.
+  split; [apply IInv_new|]. split; [vm_compute; reflexivity|]. split; [|reflexivity].
+  cbn. repeat constructor; cbn; intuition discriminate.
+Qed.
